@@ -27,9 +27,9 @@ CONFIG = {
               'floors': {'evaluations': 5000, 'distinct_nontrivial': 300, 'ops.executed': 5000, 'ops.changed-something': 300,
                          'pairs.documented': 110, 'rules.distinct-fired': 60, 'renumbered.compared': 1000, 'tautomers.generated': 60,
                          'pairs.geminal': 100, 'warm-cache.compared': 1500, 'inputs.quaternized': 60}},
-    'thorough': {'shards': 16, 'budget_s': 2400, 'n_corpus': 4200, 'k_renum': 4, 'n_taut': 800,
+    'thorough': {'shards': 16, 'budget_s': 2400, 'n_corpus': 2400, 'k_renum': 3, 'n_taut': 800,
                  'floors': {'evaluations': 150000, 'distinct_nontrivial': 3000, 'ops.executed': 100000, 'ops.changed-something': 5000,
-                            'pairs.documented': 110, 'rules.distinct-fired': 70, 'renumbered.compared': 40000, 'tautomers.generated': 4000,
+                            'pairs.documented': 110, 'rules.distinct-fired': 70, 'renumbered.compared': 40000, 'tautomers.generated': 1500,
                             'pairs.geminal': 100, 'warm-cache.compared': 30000, 'inputs.quaternized': 600}},
 }
 EXTRA = ['CN(=O)=O', 'C[N+](=O)[O-]', 'CN=[N+]=[N-]', 'CN=N#N', 'C[S+](C)[O-]', 'CS(C)=O', 'O=[N+]([O-])c1ccccc1', 'C[N+](C)(C)[O-]',
